@@ -698,9 +698,9 @@ CL = {
     "C14": {"inv": ["C15used"], "drivers": ["blind"], "ops": {"CLIssue", "CLUpdate", "CLLeaf:zkpok"}},
     "C15": {"inv": ["C15used"], "drivers": ["pok"], "ops": {"CLPoK", "CLLeaf:spok", "CLFormat:spok"}},
     "C16": {"inv": ["C16anchored"], "drivers": ["boudot"], "ops": {"CLRange", "CLLeaf:range", "CLFormat:range"}},
-    "C17": {"inv": ["C17noOpenings"], "drivers": ["leak", "blind"], "ops": {"CLFormat:zkpok", "CLFormat:spok", "CLOpenings", "CLDictionary"}},
+    "C17": {"inv": ["C17noOpenings"], "drivers": ["leak", "blind"], "ops": {"CLFormat:zkpok", "CLFormat:spok", "CLOpenings", "CLDictionary", "CLUnblinded", "CLSharedBlinding"}},
     "C18": {"inv": ["C18toy"], "drivers": ["keys", "sig"], "ops": {"CLKeyFacts", "CLRandomFacts", "CLRoundTrip"}},
-    "C19": {"inv": ["C19masks"], "drivers": ["leak"], "ops": {"CLMask", "CLMaskLens"}},
+    "C19": {"inv": ["C19masks"], "drivers": ["leak"], "ops": {"CLMask", "CLMaskLens", "CLMaskSummary", "CLUnblinded", "CLSharedBlinding", "CLFresh", "CLPoK"}},
 }
 CL_TRACE_CFG = """CONSTANTS
   Dev = %s
